@@ -322,6 +322,10 @@ def values_equal(a, b, st, world=None):
     return z3.Or(a.t == b.t, py_eq(a.t, b.t))
   if isinstance(a, (VGlobal, VBuiltin)) or isinstance(b, (VGlobal, VBuiltin)):
     return to_u(a, st) == to_u(b, st)
+  if isinstance(a, VBound) or isinstance(b, VBound):
+    # an attribute of an opaque object: an unknown value (scalars are embedded injectively in U)
+    ua, ub = to_u(a, st), to_u(b, st)
+    return z3.Or(ua == ub, py_eq(ua, ub))
   if isinstance(a, VRef) or isinstance(b, VRef):
     ref, other = (a, b) if isinstance(a, VRef) else (b, a)
     if ref.ty.kind in ('set', 'dict', 'list', 'obj', 'callable'):
